@@ -159,6 +159,13 @@ let rec map f = function
 | [] -> []
 | a :: t -> (f a) :: (map f t)
 
+(** val fold_left : ('a1 -> 'a2 -> 'a1) -> 'a2 list -> 'a1 -> 'a1 **)
+
+let rec fold_left f l a0 =
+  match l with
+  | [] -> a0
+  | b :: t -> fold_left f t (f a0 b)
+
 (** val fold_right : ('a2 -> 'a1 -> 'a1) -> 'a1 -> 'a2 list -> 'a1 **)
 
 let rec fold_right f a0 = function
@@ -286,6 +293,13 @@ module Pos =
   | XI p0 -> S (size_nat p0)
   | XO p0 -> S (size_nat p0)
   | XH -> S O
+
+  (** val size : positive -> positive **)
+
+  let rec size = function
+  | XI p0 -> succ (size p0)
+  | XO p0 -> succ (size p0)
+  | XH -> XH
 
   (** val compare_cont : comparison -> positive -> positive -> comparison **)
 
@@ -482,6 +496,13 @@ module Z =
     | Lt -> m
     | _ -> n
 
+  (** val min : z -> z -> z **)
+
+  let min n m =
+    match compare n m with
+    | Gt -> m
+    | _ -> n
+
   (** val to_nat : z -> nat **)
 
   let to_nat = function
@@ -545,6 +566,16 @@ module Z =
 
   let modulo a b =
     let (_, r) = div_eucl a b in r
+
+  (** val log2 : z -> z **)
+
+  let log2 = function
+  | Zpos p0 ->
+    (match p0 with
+     | XI p -> Zpos (Pos.size p)
+     | XO p -> Zpos (Pos.size p)
+     | XH -> Z0)
+  | _ -> Z0
  end
 
 type err =
@@ -631,6 +662,11 @@ type val0 =
 
 let vnat n =
   VI (Z.of_nat n)
+
+(** val vbool : bool -> val0 **)
+
+let vbool b =
+  VI (if b then Zpos XH else Z0)
 
 (** val vstr : str -> val0 **)
 
@@ -3606,13 +3642,13 @@ let sel ts lo hi =
 
 let transform1 ts r =
   let n = Z.of_nat (length ts) in
-  let adj = fun x -> if Z.ltb x Z0 then Z.add (Z.add x n) (Zpos XH) else x in
+  let adj0 = fun x -> if Z.ltb x Z0 then Z.add (Z.add x n) (Zpos XH) else x in
   let (b, e) = r in
   if Z.eqb b e
-  then if Z.eqb b Z0 then concat ts else sel ts (adj b) (adj b)
+  then if Z.eqb b Z0 then concat ts else sel ts (adj0 b) (adj0 b)
   else if Z.eqb b Z0
-       then sel ts (Zpos XH) (adj e)
-       else if Z.eqb e Z0 then sel ts (adj b) n else sel ts (adj b) (adj e)
+       then sel ts (Zpos XH) (adj0 e)
+       else if Z.eqb e Z0 then sel ts (adj0 b) n else sel ts (adj0 b) (adj0 e)
 
 (** val transform_join : str list -> rng list -> str **)
 
@@ -4066,6 +4102,1009 @@ let dispatch_placeholder op a =
                                                    (scan (as_str a) O [])))
                                           else None
 
+(** val is_blank : z -> bool **)
+
+let is_blank c =
+  (||) (Z.eqb c (Zpos (XI (XO (XO XH)))))
+    (Z.eqb c (Zpos (XO (XO (XO (XO (XO XH)))))))
+
+(** val non_blank : z -> bool **)
+
+let non_blank c =
+  negb (is_blank c)
+
+(** val span0 : ('a1 -> bool) -> 'a1 list -> 'a1 list * 'a1 list **)
+
+let rec span0 p l = match l with
+| [] -> ([], [])
+| x :: t -> if p x then let (a, b) = span0 p t in ((x :: a), b) else ([], l)
+
+(** val awk_fields_from : nat -> str -> str list **)
+
+let rec awk_fields_from fuel s =
+  match fuel with
+  | O -> []
+  | S k ->
+    (match s with
+     | [] -> []
+     | _ :: _ ->
+       let (w, r1) = span0 non_blank s in
+       let (b, r2) = span0 is_blank r1 in (app w b) :: (awk_fields_from k r2))
+
+(** val awk_lead : str -> str **)
+
+let awk_lead line =
+  fst (span0 is_blank line)
+
+(** val awk_fields : str -> str list **)
+
+let awk_fields line =
+  let r = snd (span0 is_blank line) in awk_fields_from (length r) r
+
+(** val is_prefix : str -> str -> bool **)
+
+let rec is_prefix p s =
+  match p with
+  | [] -> true
+  | x :: p' ->
+    (match s with
+     | [] -> false
+     | y :: s' -> (&&) (Z.eqb x y) (is_prefix p' s'))
+
+(** val split_after_go : str -> nat -> str -> str -> str list **)
+
+let rec split_after_go sep skip cur s = match s with
+| [] -> (rev cur) :: []
+| c :: t ->
+  (match skip with
+   | O ->
+     if is_prefix sep s
+     then (match length sep with
+           | O -> split_after_go sep (sub O (S O)) (c :: cur) t
+           | S n0 ->
+             (match n0 with
+              | O -> (rev (c :: cur)) :: (split_after_go sep O [] t)
+              | S n1 -> split_after_go sep (sub (S (S n1)) (S O)) (c :: cur) t))
+     else split_after_go sep O (c :: cur) t
+   | S k ->
+     (match k with
+      | O -> (rev (c :: cur)) :: (split_after_go sep O [] t)
+      | S _ -> split_after_go sep k (c :: cur) t))
+
+(** val split_after0 : str -> str -> str list **)
+
+let split_after0 sep line =
+  match sep with
+  | [] -> map (fun c -> c :: []) line
+  | _ :: _ -> split_after_go sep O [] line
+
+(** val split_by_from : nat -> (nat * nat) list -> str -> str list **)
+
+let rec split_by_from begin0 locs line =
+  match locs with
+  | [] ->
+    if Nat.ltb begin0 (length line) then (skipn begin0 line) :: [] else []
+  | p :: r ->
+    let (_, e) = p in
+    (firstn (sub e begin0) (skipn begin0 line)) :: (split_by_from e r line)
+
+(** val split_by : (nat * nat) list -> str -> str list **)
+
+let split_by locs line =
+  split_by_from O locs line
+
+(** val locs_wfb : nat -> nat -> (nat * nat) list -> bool **)
+
+let rec locs_wfb begin0 len = function
+| [] -> true
+| p :: r ->
+  let (s, e) = p in
+  (&&) ((&&) ((&&) (Nat.leb begin0 s) (Nat.leb s e)) (Nat.leb e len))
+    (locs_wfb e len r)
+
+(** val offsets : nat -> str list -> nat list **)
+
+let rec offsets start = function
+| [] -> []
+| f :: r -> start :: (offsets (add start (length f)) r)
+
+(** val nat_list_eqb : nat list -> nat list -> bool **)
+
+let rec nat_list_eqb a b =
+  match a with
+  | [] -> (match b with
+           | [] -> true
+           | _ :: _ -> false)
+  | x :: a0 ->
+    (match b with
+     | [] -> false
+     | y :: b0 -> (&&) (Nat.eqb x y) (nat_list_eqb a0 b0))
+
+(** val partition_ok : str -> str -> str list -> nat list -> bool **)
+
+let partition_ok line lead fields starts =
+  (&&) (str_eqb (app lead (concat fields)) line)
+    (nat_list_eqb starts (offsets (length lead) fields))
+
+type fexpr =
+| FIdx of z
+| FRange of z option * z option
+
+(** val resolve : z -> z -> z **)
+
+let resolve n i =
+  if Z.ltb i Z0 then Z.add (Z.add i n) (Zpos XH) else i
+
+(** val sel_bounds : fexpr -> z -> z * z **)
+
+let sel_bounds e n =
+  match e with
+  | FIdx i ->
+    let k = resolve n i in
+    if (&&) (Z.leb (Zpos XH) k) (Z.leb k n) then (k, k) else ((Zpos XH), Z0)
+  | FRange (a, b) ->
+    ((Z.max (Zpos XH) (match a with
+                       | Some x -> resolve n x
+                       | None -> Zpos XH)),
+      (Z.min n (match b with
+                | Some y -> resolve n y
+                | None -> n)))
+
+(** val select_fields : fexpr -> 'a1 list -> 'a1 list **)
+
+let select_fields e fields =
+  let (lo, hi) = sel_bounds e (Z.of_nat (length fields)) in
+  firstn (Z.to_nat (Z.sub (Z.add hi (Zpos XH)) lo))
+    (skipn (Z.to_nat (Z.sub lo (Zpos XH))) fields)
+
+(** val select_first : fexpr -> nat -> nat **)
+
+let select_first e n =
+  Z.to_nat (Z.sub (fst (sel_bounds e (Z.of_nat n))) (Zpos XH))
+
+(** val select_text : fexpr -> str list -> str **)
+
+let select_text e fields =
+  concat (select_fields e fields)
+
+(** val select_start : fexpr -> nat -> str list -> nat **)
+
+let select_start e start fields =
+  add start (length (concat (firstn (select_first e (length fields)) fields)))
+
+(** val digits_of : nat -> z -> str -> str **)
+
+let rec digits_of fuel n acc =
+  match fuel with
+  | O -> acc
+  | S k ->
+    if Z.ltb n (Zpos (XO (XI (XO XH))))
+    then (Z.add (Zpos (XO (XO (XO (XO (XI XH)))))) n) :: acc
+    else digits_of k (Z.div n (Zpos (XO (XI (XO XH)))))
+           ((Z.add (Zpos (XO (XO (XO (XO (XI XH))))))
+              (Z.modulo n (Zpos (XO (XI (XO XH)))))) :: acc)
+
+(** val digits : z -> str **)
+
+let digits n =
+  digits_of (S (Z.to_nat (Z.log2 n))) n []
+
+(** val itoa0 : z -> str **)
+
+let itoa0 z0 =
+  if Z.ltb z0 Z0
+  then (Zpos (XI (XO (XI (XI (XO XH)))))) :: (digits (Z.opp z0))
+  else digits z0
+
+(** val dOT : z **)
+
+let dOT =
+  Zpos (XO (XI (XI (XI (XO XH)))))
+
+(** val print_fexpr : fexpr -> str **)
+
+let print_fexpr = function
+| FIdx n -> itoa0 n
+| FRange (a, b) ->
+  app (match a with
+       | Some x -> itoa0 x
+       | None -> [])
+    (app (dOT :: (dOT :: [])) (match b with
+                               | Some y -> itoa0 y
+                               | None -> []))
+
+(** val is_space0 : z -> bool **)
+
+let is_space0 c =
+  (||)
+    ((||)
+      ((||)
+        ((||)
+          ((||)
+            ((||)
+              ((||)
+                ((||)
+                  ((||)
+                    ((||)
+                      ((&&) (Z.leb (Zpos (XI (XO (XO XH)))) c)
+                        (Z.leb c (Zpos (XI (XO (XI XH))))))
+                      (Z.eqb c (Zpos (XO (XO (XO (XO (XO XH))))))))
+                    (Z.eqb c (Zpos (XI (XO (XI (XO (XO (XO (XO XH))))))))))
+                  (Z.eqb c (Zpos (XO (XO (XO (XO (XO (XI (XO XH))))))))))
+                (Z.eqb c (Zpos (XO (XO (XO (XO (XO (XO (XO (XI (XO (XI (XI
+                  (XO XH)))))))))))))))
+              ((&&)
+                (Z.leb (Zpos (XO (XO (XO (XO (XO (XO (XO (XO (XO (XO (XO (XO
+                  (XO XH)))))))))))))) c)
+                (Z.leb c (Zpos (XO (XI (XO (XI (XO (XO (XO (XO (XO (XO (XO
+                  (XO (XO XH)))))))))))))))))
+            (Z.eqb c (Zpos (XO (XO (XO (XI (XO (XI (XO (XO (XO (XO (XO (XO
+              (XO XH))))))))))))))))
+          (Z.eqb c (Zpos (XI (XO (XO (XI (XO (XI (XO (XO (XO (XO (XO (XO (XO
+            XH))))))))))))))))
+        (Z.eqb c (Zpos (XI (XI (XI (XI (XO (XI (XO (XO (XO (XO (XO (XO (XO
+          XH))))))))))))))))
+      (Z.eqb c (Zpos (XI (XI (XI (XI (XI (XO (XI (XO (XO (XO (XO (XO (XO
+        XH))))))))))))))))
+    (Z.eqb c (Zpos (XO (XO (XO (XO (XO (XO (XO (XO (XO (XO (XO (XO (XI
+      XH)))))))))))))))
+
+(** val trim_right : (z -> bool) -> str -> str **)
+
+let trim_right p s =
+  rev (drop_while p (rev s))
+
+(** val inside_selection : fexpr -> nat -> str list -> nat -> nat -> bool **)
+
+let inside_selection ex start fields s e =
+  (&&) ((&&) (Nat.leb (select_start ex start fields) s) (Nat.leb s e))
+    (Nat.leb e
+      (add (select_start ex start fields) (length (select_text ex fields))))
+
+type token = { t_text : str; t_prefix : z }
+
+type delimiter =
+| DAwk
+| DStr of str
+| DRegex of (str -> (nat * nat) list)
+
+(** val is_awk : delimiter -> bool **)
+
+let is_awk = function
+| DAwk -> true
+| _ -> false
+
+(** val slice : str -> nat -> nat -> str res **)
+
+let slice s b e =
+  if (&&) (Nat.leb b e) (Nat.leb e (length s))
+  then Ok (firstn (sub e b) (skipn b s))
+  else Err OutOfRange
+
+(** val with_prefix_lengths : str list -> z -> token list **)
+
+let rec with_prefix_lengths tokens begin0 =
+  match tokens with
+  | [] -> []
+  | t :: r ->
+    { t_text = t; t_prefix =
+      begin0 } :: (with_prefix_lengths r (Z.add begin0 (Z.of_nat (length t))))
+
+type awk_state0 =
+| AwkNil0
+| AwkBlack0
+| AwkWhite0
+
+(** val awk_loop :
+    awk_state0 -> str -> str list -> z -> str -> str list * z **)
+
+let rec awk_loop st cur ret pl = function
+| [] -> ((rev (match st with
+               | AwkNil0 -> ret
+               | _ -> (rev cur) :: ret)), pl)
+| r :: t ->
+  let white = is_blank r in
+  (match st with
+   | AwkNil0 ->
+     if white
+     then awk_loop AwkNil0 cur ret (Z.add pl (Zpos XH)) t
+     else awk_loop AwkBlack0 (r :: []) ret pl t
+   | AwkBlack0 ->
+     awk_loop (if white then AwkWhite0 else AwkBlack0) (r :: cur) ret pl t
+   | AwkWhite0 ->
+     if white
+     then awk_loop AwkWhite0 (r :: cur) ret pl t
+     else awk_loop AwkBlack0 (r :: []) ((rev cur) :: ret) pl t)
+
+(** val awk_tokenizer : str -> str list * z **)
+
+let awk_tokenizer input =
+  awk_loop AwkNil0 [] [] Z0 input
+
+(** val regex_tokens : str -> nat -> (nat * nat) list -> str list res **)
+
+let rec regex_tokens text begin0 = function
+| [] ->
+  if Nat.ltb begin0 (length text)
+  then bind (slice text begin0 (length text)) (fun t -> Ok (t :: []))
+  else Ok []
+| p :: r ->
+  let (_, e) = p in
+  bind (slice text begin0 e) (fun t ->
+    bind (regex_tokens text e r) (fun rest -> Ok (t :: rest)))
+
+(** val tokenize0 : str -> delimiter -> token list res **)
+
+let tokenize0 text = function
+| DAwk ->
+  let (tokens, pl) = awk_tokenizer text in Ok (with_prefix_lengths tokens pl)
+| DStr sep -> Ok (with_prefix_lengths (split_after0 sep text) Z0)
+| DRegex rx ->
+  bind (regex_tokens text O (rx text)) (fun tokens -> Ok
+    (with_prefix_lengths tokens Z0))
+
+(** val has_prefix0 : str -> str -> bool **)
+
+let has_prefix0 =
+  is_prefix
+
+(** val has_suffix0 : str -> str -> bool **)
+
+let has_suffix0 p s =
+  is_prefix (rev p) (rev s)
+
+(** val contains : str -> str -> bool **)
+
+let rec contains sub0 s =
+  (||) (is_prefix sub0 s)
+    (match s with
+     | [] -> false
+     | _ :: t -> contains sub0 t)
+
+(** val trim_suffix0 : str -> str -> str **)
+
+let trim_suffix0 s suffix =
+  if has_suffix0 suffix s
+  then firstn (sub (length s) (length suffix)) s
+  else s
+
+(** val split_go : str -> nat -> str -> str -> str list **)
+
+let rec split_go sep skip cur s = match s with
+| [] -> (rev cur) :: []
+| c :: t ->
+  (match skip with
+   | O ->
+     if is_prefix sep s
+     then (rev cur) :: (split_go sep (sub (length sep) (S O)) [] t)
+     else split_go sep O (c :: cur) t
+   | S k -> split_go sep k cur t)
+
+(** val split : str -> str -> str list **)
+
+let split sep s =
+  split_go sep O [] s
+
+(** val is_digit0 : z -> bool **)
+
+let is_digit0 c =
+  (&&) (Z.leb (Zpos (XO (XO (XO (XO (XI XH)))))) c)
+    (Z.leb c (Zpos (XI (XO (XO (XI (XI XH)))))))
+
+(** val digits_value : str -> z **)
+
+let digits_value ds =
+  fold_left (fun v d ->
+    Z.add (Z.mul v (Zpos (XO (XI (XO XH)))))
+      (Z.sub d (Zpos (XO (XO (XO (XO (XI XH)))))))) ds Z0
+
+(** val iNT_MIN : z **)
+
+let iNT_MIN =
+  Zneg (XO (XO (XO (XO (XO (XO (XO (XO (XO (XO (XO (XO (XO (XO (XO (XO (XO
+    (XO (XO (XO (XO (XO (XO (XO (XO (XO (XO (XO (XO (XO (XO (XO (XO (XO (XO
+    (XO (XO (XO (XO (XO (XO (XO (XO (XO (XO (XO (XO (XO (XO (XO (XO (XO (XO
+    (XO (XO (XO (XO (XO (XO (XO (XO (XO (XO
+    XH)))))))))))))))))))))))))))))))))))))))))))))))))))))))))))))))
+
+(** val iNT_MAX : z **)
+
+let iNT_MAX =
+  Zpos (XI (XI (XI (XI (XI (XI (XI (XI (XI (XI (XI (XI (XI (XI (XI (XI (XI
+    (XI (XI (XI (XI (XI (XI (XI (XI (XI (XI (XI (XI (XI (XI (XI (XI (XI (XI
+    (XI (XI (XI (XI (XI (XI (XI (XI (XI (XI (XI (XI (XI (XI (XI (XI (XI (XI
+    (XI (XI (XI (XI (XI (XI (XI (XI (XI
+    XH))))))))))))))))))))))))))))))))))))))))))))))))))))))))))))))
+
+(** val atoi0 : str -> z option **)
+
+let atoi0 s = match s with
+| [] ->
+  let neg = false in
+  (match s with
+   | [] -> None
+   | _ :: _ ->
+     if forallb is_digit0 s
+     then let v = if neg then Z.opp (digits_value s) else digits_value s in
+          if (&&) (Z.leb iNT_MIN v) (Z.leb v iNT_MAX) then Some v else None
+     else None)
+| c :: r ->
+  if Z.eqb c (Zpos (XI (XO (XI (XI (XO XH))))))
+  then let neg = true in
+       (match r with
+        | [] -> None
+        | _ :: _ ->
+          if forallb is_digit0 r
+          then let v = if neg then Z.opp (digits_value r) else digits_value r
+               in
+               if (&&) (Z.leb iNT_MIN v) (Z.leb v iNT_MAX)
+               then Some v
+               else None
+          else None)
+  else if Z.eqb c (Zpos (XI (XI (XO (XI (XO XH))))))
+       then let neg = false in
+            (match r with
+             | [] -> None
+             | _ :: _ ->
+               if forallb is_digit0 r
+               then let v =
+                      if neg then Z.opp (digits_value r) else digits_value r
+                    in
+                    if (&&) (Z.leb iNT_MIN v) (Z.leb v iNT_MAX)
+                    then Some v
+                    else None
+               else None)
+       else let neg = false in
+            (match s with
+             | [] -> None
+             | _ :: _ ->
+               if forallb is_digit0 s
+               then let v =
+                      if neg then Z.opp (digits_value s) else digits_value s
+                    in
+                    if (&&) (Z.leb iNT_MIN v) (Z.leb v iNT_MAX)
+                    then Some v
+                    else None
+               else None)
+
+type range = z * z
+
+(** val new_range0 : z -> z -> range **)
+
+let new_range0 b e =
+  let b0 =
+    if (&&) (Z.eqb b (Zpos XH)) (negb (Z.eqb e (Zpos XH))) then Z0 else b
+  in
+  let e0 = if Z.eqb e (Zneg XH) then Z0 else e in (b0, e0)
+
+(** val dD : str **)
+
+let dD =
+  (Zpos (XO (XI (XI (XI (XO XH)))))) :: ((Zpos (XO (XI (XI (XI (XO
+    XH)))))) :: [])
+
+(** val parse_range0 : str -> range option **)
+
+let parse_range0 s =
+  if str_eqb s dD
+  then Some (new_range0 Z0 Z0)
+  else if has_prefix0 dD s
+       then (match atoi0 (skipn (S (S O)) s) with
+             | Some e -> if Z.eqb e Z0 then None else Some (new_range0 Z0 e)
+             | None -> None)
+       else if has_suffix0 dD s
+            then (match atoi0 (firstn (sub (length s) (S (S O))) s) with
+                  | Some b ->
+                    if Z.eqb b Z0 then None else Some (new_range0 b Z0)
+                  | None -> None)
+            else if contains dD s
+                 then (match split dD s with
+                       | [] -> None
+                       | n0 :: l ->
+                         (match l with
+                          | [] -> None
+                          | n1 :: l0 ->
+                            (match l0 with
+                             | [] ->
+                               (match atoi0 n0 with
+                                | Some b ->
+                                  (match atoi0 n1 with
+                                   | Some e ->
+                                     if (||) ((||) (Z.eqb b Z0) (Z.eqb e Z0))
+                                          ((&&) (Z.ltb b Z0) (Z.ltb Z0 e))
+                                     then None
+                                     else Some (new_range0 b e)
+                                   | None -> None)
+                                | None -> None)
+                             | _ :: _ -> None)))
+                 else (match atoi0 s with
+                       | Some n ->
+                         if Z.eqb n Z0 then None else Some (new_range0 n n)
+                       | None -> None)
+
+(** val range_to_string : range -> str **)
+
+let range_to_string = function
+| (b, e) ->
+  if (&&) (Z.eqb b Z0) (Z.eqb e Z0)
+  then dD
+  else if Z.eqb b e
+       then itoa0 b
+       else app (if Z.eqb b Z0 then [] else itoa0 b)
+              (if Z.eqb b (Zneg XH)
+               then []
+               else app dD (if Z.eqb e Z0 then [] else itoa0 e))
+
+(** val ranges_to_string : range list -> str **)
+
+let ranges_to_string rs =
+  concat_map_sep (Zpos (XO (XO (XI (XI (XO XH)))))) (map range_to_string rs)
+
+(** val join_tokens : token list -> str **)
+
+let join_tokens tokens =
+  concat (map (fun t -> t.t_text) tokens)
+
+(** val adj : z -> z -> z **)
+
+let adj n i =
+  if Z.ltb i Z0 then Z.add (Z.add i n) (Zpos XH) else i
+
+(** val collect : token list -> z -> nat -> z -> z -> str list res **)
+
+let rec collect tokens n fuel idx e =
+  match fuel with
+  | O -> if Z.leb idx e then Err OutOfFuel else Ok []
+  | S k ->
+    if Z.leb idx e
+    then if (&&) (Z.leb (Zpos XH) idx) (Z.leb idx n)
+         then bind (get tokens (Z.to_nat (Z.sub idx (Zpos XH)))) (fun t ->
+                bind (collect tokens n k (Z.add idx (Zpos XH)) e) (fun r ->
+                  Ok (t.t_text :: r)))
+         else collect tokens n k (Z.add idx (Zpos XH)) e
+    else Ok []
+
+(** val transform_one : token list -> range -> token res **)
+
+let transform_one tokens r =
+  let n = Z.of_nat (length tokens) in
+  let (rb, re) = r in
+  bind
+    (if Z.eqb rb re
+     then if Z.eqb rb Z0
+          then Ok (((join_tokens tokens) :: []), Z0)
+          else let idx = adj n rb in
+               if (&&) (Z.leb (Zpos XH) idx) (Z.leb idx n)
+               then bind (get tokens (Z.to_nat (Z.sub idx (Zpos XH))))
+                      (fun t -> Ok ((t.t_text :: []), (Z.sub idx (Zpos XH))))
+               else Ok ([], Z0)
+     else if Z.eqb rb Z0
+          then let b = Zpos XH in
+               let e = adj n re in
+               bind
+                 (collect tokens n (Z.to_nat (Z.add (Z.sub e b) (Zpos XH))) b
+                   e) (fun parts -> Ok (parts,
+                 (Z.max Z0 (Z.sub b (Zpos XH)))))
+          else if Z.eqb re Z0
+               then let b = adj n rb in
+                    bind
+                      (collect tokens n
+                        (Z.to_nat (Z.add (Z.sub n b) (Zpos XH))) b n)
+                      (fun parts -> Ok (parts,
+                      (Z.max Z0 (Z.sub b (Zpos XH)))))
+               else let b = adj n rb in
+                    let e = adj n re in
+                    bind
+                      (collect tokens n
+                        (Z.to_nat (Z.add (Z.sub e b) (Zpos XH))) b e)
+                      (fun parts -> Ok (parts,
+                      (Z.max Z0 (Z.sub b (Zpos XH)))))) (fun pm ->
+    let (parts, min_idx) = pm in
+    let merged = concat parts in
+    bind
+      (if Z.ltb min_idx n
+       then bind (get tokens (Z.to_nat min_idx)) (fun t -> Ok t.t_prefix)
+       else Ok Z0) (fun pl -> Ok { t_text = merged; t_prefix = pl }))
+
+(** val transform : token list -> range list -> token list res **)
+
+let rec transform tokens = function
+| [] -> Ok []
+| r :: rest ->
+  bind (transform_one tokens r) (fun t ->
+    bind (transform tokens rest) (fun ts -> Ok (t :: ts)))
+
+(** val strip_last_delimiter : str -> delimiter -> str res **)
+
+let strip_last_delimiter s d =
+  bind
+    (match d with
+     | DAwk -> Ok s
+     | DStr sep -> Ok (trim_suffix0 s sep)
+     | DRegex rx ->
+       (match rev (rx s) with
+        | [] -> Ok s
+        | p :: _ ->
+          let (b, e) = p in if Nat.eqb e (length s) then slice s O b else Ok s))
+    (fun s1 -> Ok (trim_right is_space0 s1))
+
+(** val map_last : ('a1 -> 'a1 res) -> 'a1 list -> 'a1 list res **)
+
+let rec map_last f = function
+| [] -> Ok []
+| x :: r ->
+  (match r with
+   | [] -> bind (f x) (fun y -> Ok (y :: []))
+   | _ :: _ -> bind (map_last f r) (fun r' -> Ok (x :: r')))
+
+(** val transform_input : str -> range list -> delimiter -> token list res **)
+
+let transform_input line nth0 d =
+  bind (tokenize0 line d) (fun tokens ->
+    bind (transform tokens nth0) (fun ret ->
+      if is_awk d
+      then Ok ret
+      else map_last (fun t ->
+             bind (strip_last_delimiter t.t_text d) (fun s -> Ok { t_text =
+               s; t_prefix = t.t_prefix })) ret))
+
+type match_fn = str -> ((nat * nat) * nat list) option
+
+(** val iter : match_fn -> token list -> ((z * z) * z list) option **)
+
+let rec iter pfun = function
+| [] -> None
+| part :: rest ->
+  (match pfun part.t_text with
+   | Some p ->
+     let (p0, pos) = p in
+     let (s, e) = p0 in
+     Some (((Z.add (Z.of_nat s) part.t_prefix),
+     (Z.add (Z.of_nat e) part.t_prefix)),
+     (map (fun p1 -> Z.add (Z.of_nat p1) part.t_prefix) pos))
+   | None -> iter pfun rest)
+
+(** val nth_match :
+    match_fn -> str -> range list -> delimiter -> ((z * z) * z list) option
+    res **)
+
+let nth_match pfun line nth0 d =
+  match nth0 with
+  | [] -> Ok (iter pfun ({ t_text = line; t_prefix = Z0 } :: []))
+  | _ :: _ ->
+    bind (transform_input line nth0 d) (fun tokens -> Ok (iter pfun tokens))
+
+(** val nth_transformer : range list -> token list -> str res **)
+
+let nth_transformer nth0 tokens =
+  bind (transform tokens nth0) (fun ts -> Ok (join_tokens ts))
+
+(** val accept_nth : str -> range list -> delimiter -> str res **)
+
+let accept_nth line nth0 d =
+  bind (tokenize0 line d) (fun tokens ->
+    bind (nth_transformer nth0 tokens) (fun s -> strip_last_delimiter s d))
+
+(** val vtok : token -> val0 **)
+
+let vtok t =
+  VL ((vstr t.t_text) :: ((VI t.t_prefix) :: []))
+
+(** val vtoks : token list -> val0 **)
+
+let vtoks ts =
+  VL (map vtok ts)
+
+(** val as_tok : val0 -> token **)
+
+let as_tok v =
+  { t_text = (as_str (arg v O)); t_prefix = (as_int (arg v (S O))) }
+
+(** val as_toks : val0 -> token list **)
+
+let as_toks v =
+  map as_tok (as_list v)
+
+(** val as_loc : val0 -> nat * nat **)
+
+let as_loc v =
+  ((as_nat (arg v O)), (as_nat (arg v (S O))))
+
+(** val as_locs : val0 -> (nat * nat) list **)
+
+let as_locs v =
+  map as_loc (as_list v)
+
+(** val rx_lookup :
+    (str * (nat * nat) list) list -> str -> (nat * nat) list **)
+
+let rec rx_lookup tbl s =
+  match tbl with
+  | [] -> []
+  | p :: r -> let (k, v) = p in if str_eqb k s then v else rx_lookup r s
+
+(** val as_rx : val0 -> str -> (nat * nat) list **)
+
+let as_rx v =
+  rx_lookup
+    (map (fun e -> ((as_str (arg e O)), (as_locs (arg e (S O))))) (as_list v))
+
+(** val as_delim : val0 -> delimiter **)
+
+let as_delim v =
+  let k = as_int (arg v O) in
+  if Z.eqb k (Zpos XH)
+  then DStr (as_str (arg v (S O)))
+  else if Z.eqb k (Zpos (XO XH)) then DRegex (as_rx (arg v (S O))) else DAwk
+
+(** val as_range : val0 -> range **)
+
+let as_range v =
+  ((as_int (arg v O)), (as_int (arg v (S O))))
+
+(** val as_ranges : val0 -> range list **)
+
+let as_ranges v =
+  map as_range (as_list v)
+
+(** val as_optz : val0 -> z option **)
+
+let as_optz v =
+  match as_list v with
+  | [] -> None
+  | x :: _ -> Some (as_int x)
+
+(** val as_fexpr : val0 -> fexpr **)
+
+let as_fexpr v =
+  if Z.eqb (as_int (arg v O)) Z0
+  then FIdx (as_int (arg v (S O)))
+  else FRange ((as_optz (arg v (S O))), (as_optz (arg v (S (S O)))))
+
+(** val mf_lookup :
+    (str * ((nat * nat) * nat list) option) list -> str -> ((nat * nat) * nat
+    list) option **)
+
+let rec mf_lookup tbl s =
+  match tbl with
+  | [] -> None
+  | p :: r -> let (k, v) = p in if str_eqb k s then v else mf_lookup r s
+
+(** val as_match_fn : val0 -> match_fn **)
+
+let as_match_fn v =
+  mf_lookup
+    (map (fun e -> ((as_str (arg e O)),
+      (match as_list (arg e (S O)) with
+       | [] -> None
+       | _ :: _ ->
+         Some (((as_nat (arg (arg e (S O)) O)),
+           (as_nat (arg (arg e (S O)) (S O)))),
+           (map as_nat (as_list (arg (arg e (S O)) (S (S O)))))))))
+      (as_list v))
+
+(** val vres : ('a1 -> val0) -> 'a1 res -> val0 **)
+
+let vres f = function
+| Ok a -> f a
+| Err _ -> verr
+
+(** val vmatch : ((z * z) * z list) option -> val0 **)
+
+let vmatch = function
+| Some p ->
+  let (p0, pos) = p in
+  let (s, e) = p0 in
+  VL ((VI s) :: ((VI e) :: ((VL (map (fun x -> VI x) pos)) :: [])))
+| None -> VL []
+
+(** val dispatch_token : z -> val0 -> val0 option **)
+
+let dispatch_token op a =
+  if Z.eqb op (Zpos (XI (XO (XO (XI (XO (XI (XI (XI (XI XH))))))))))
+  then Some
+         (vres vtoks (tokenize0 (as_str (arg a O)) (as_delim (arg a (S O)))))
+  else if Z.eqb op (Zpos (XO (XI (XO (XI (XO (XI (XI (XI (XI XH))))))))))
+       then Some
+              (match parse_range0 (as_str a) with
+               | Some r ->
+                 VL ((VL
+                   ((vstr (itoa0 (fst r))) :: ((vstr (itoa0 (snd r))) :: []))) :: [])
+               | None -> VL [])
+       else if Z.eqb op (Zpos (XI (XI (XO (XI (XO (XI (XI (XI (XI XH))))))))))
+            then Some
+                   (vres vtoks
+                     (transform (as_toks (arg a O)) (as_ranges (arg a (S O)))))
+            else if Z.eqb op (Zpos (XO (XO (XI (XI (XO (XI (XI (XI (XI
+                      XH))))))))))
+                 then Some
+                        (vres vtoks
+                          (transform_input (as_str (arg a O))
+                            (as_ranges (arg a (S O)))
+                            (as_delim (arg a (S (S O))))))
+                 else if Z.eqb op (Zpos (XI (XO (XI (XI (XO (XI (XI (XI (XI
+                           XH))))))))))
+                      then Some (vstr (ranges_to_string (as_ranges a)))
+                      else if Z.eqb op (Zpos (XO (XI (XI (XI (XO (XI (XI (XI
+                                (XI XH))))))))))
+                           then Some
+                                  (vres vstr
+                                    (strip_last_delimiter (as_str (arg a O))
+                                      (as_delim (arg a (S O)))))
+                           else if Z.eqb op (Zpos (XI (XI (XI (XI (XO (XI (XI
+                                     (XI (XI XH))))))))))
+                                then Some
+                                       (vres vstr
+                                         (accept_nth (as_str (arg a O))
+                                           (as_ranges (arg a (S O)))
+                                           (as_delim (arg a (S (S O))))))
+                                else if Z.eqb op (Zpos (XO (XO (XO (XO (XI
+                                          (XI (XI (XI (XI XH))))))))))
+                                     then Some
+                                            (vres vmatch
+                                              (nth_match
+                                                (as_match_fn
+                                                  (arg a (S (S (S O)))))
+                                                (as_str (arg a O))
+                                                (as_ranges (arg a (S O)))
+                                                (as_delim (arg a (S (S O))))))
+                                     else if Z.eqb op (Zpos (XI (XO (XO (XO
+                                               (XI (XI (XI (XI (XI
+                                               XH))))))))))
+                                          then Some
+                                                 (let (ts, pl) =
+                                                    awk_tokenizer (as_str a)
+                                                  in
+                                                  VL ((vstrs ts) :: ((VI
+                                                  pl) :: [])))
+                                          else if Z.eqb op (Zpos (XO (XI (XO
+                                                    (XO (XI (XI (XI (XI (XI
+                                                    XH))))))))))
+                                               then Some
+                                                      (vbool
+                                                        (partition_ok
+                                                          (as_str (arg a O))
+                                                          (as_str
+                                                            (arg a (S O)))
+                                                          (as_strs
+                                                            (arg a (S (S O))))
+                                                          (map as_nat
+                                                            (as_list
+                                                              (arg a (S (S (S
+                                                                O))))))))
+                                               else if Z.eqb op (Zpos (XI (XI
+                                                         (XO (XO (XI (XI (XI
+                                                         (XI (XI XH))))))))))
+                                                    then Some (VL
+                                                           ((vstr
+                                                              (awk_lead
+                                                                (as_str a))) :: (
+                                                           (vstrs
+                                                             (awk_fields
+                                                               (as_str a))) :: [])))
+                                                    else if Z.eqb op (Zpos
+                                                              (XO (XO (XI (XO
+                                                              (XI (XI (XI (XI
+                                                              (XI XH))))))))))
+                                                         then Some
+                                                                (vstrs
+                                                                  (split_after0
+                                                                    (as_str
+                                                                    (arg a O))
+                                                                    (as_str
+                                                                    (arg a (S
+                                                                    O)))))
+                                                         else if Z.eqb op
+                                                                   (Zpos (XI
+                                                                   (XO (XI
+                                                                   (XO (XI
+                                                                   (XI (XI
+                                                                   (XI (XI
+                                                                   XH))))))))))
+                                                              then Some
+                                                                    (
+                                                                    let locs =
+                                                                    as_locs
+                                                                    (arg a O)
+                                                                    in
+                                                                    let line =
+                                                                    as_str
+                                                                    (arg a (S
+                                                                    O))
+                                                                    in
+                                                                    VL
+                                                                    (
+                                                                    (vbool
+                                                                    (locs_wfb
+                                                                    O
+                                                                    (length
+                                                                    line)
+                                                                    locs)) :: (
+                                                                    (vstrs
+                                                                    (split_by
+                                                                    locs line)) :: [])))
+                                                              else if 
+                                                                    Z.eqb op
+                                                                    (Zpos (XO
+                                                                    (XI (XI
+                                                                    (XO (XI
+                                                                    (XI (XI
+                                                                    (XI (XI
+                                                                    XH))))))))))
+                                                                   then 
+                                                                    Some
+                                                                    (
+                                                                    let e =
+                                                                    as_fexpr
+                                                                    (arg a O)
+                                                                    in
+                                                                    let fs0 =
+                                                                    as_strs
+                                                                    (arg a (S
+                                                                    O))
+                                                                    in
+                                                                    VL
+                                                                    (
+                                                                    (vstr
+                                                                    (select_text
+                                                                    e fs0)) :: (
+                                                                    (vnat
+                                                                    (select_start
+                                                                    e
+                                                                    (as_nat
+                                                                    (arg a (S
+                                                                    (S O))))
+                                                                    fs0)) :: (
+                                                                    (vnat
+                                                                    (length
+                                                                    (select_fields
+                                                                    e fs0))) :: []))))
+                                                                   else 
+                                                                    if 
+                                                                    Z.eqb op
+                                                                    (Zpos (XI
+                                                                    (XI (XI
+                                                                    (XO (XI
+                                                                    (XI (XI
+                                                                    (XI (XI
+                                                                    XH))))))))))
+                                                                    then 
+                                                                    Some
+                                                                    (vbool
+                                                                    (inside_selection
+                                                                    (as_fexpr
+                                                                    (arg a O))
+                                                                    (as_nat
+                                                                    (arg a (S
+                                                                    (S O))))
+                                                                    (as_strs
+                                                                    (arg a (S
+                                                                    O)))
+                                                                    (as_nat
+                                                                    (arg a (S
+                                                                    (S (S
+                                                                    O)))))
+                                                                    (as_nat
+                                                                    (arg a (S
+                                                                    (S (S (S
+                                                                    O))))))))
+                                                                    else 
+                                                                    if 
+                                                                    Z.eqb op
+                                                                    (Zpos (XO
+                                                                    (XO (XO
+                                                                    (XI (XI
+                                                                    (XI (XI
+                                                                    (XI (XI
+                                                                    XH))))))))))
+                                                                    then 
+                                                                    Some
+                                                                    (vstr
+                                                                    (print_fexpr
+                                                                    (as_fexpr
+                                                                    a)))
+                                                                    else None
+
 (** val dispatch : z -> val0 -> val0 **)
 
 let dispatch op a =
@@ -4077,4 +5116,6 @@ let dispatch op a =
      | None ->
        (match dispatch_placeholder op a with
         | Some v -> v
-        | None -> verr))
+        | None -> (match dispatch_token op a with
+                   | Some v -> v
+                   | None -> verr)))
